@@ -319,6 +319,9 @@ func (h *SexpHash) TypeCheckField(key Sexp, val Sexp) error {
 				if len(a.Val) == 0 {
 					return nil // okay
 				}
+				// a slice whose first element has no type, e.g. [nil]
+				return fmt.Errorf("field %v.%v is %v, cannot assign untyped slice '%v'",
+					p.UserStructDefn.Name, k, declaredTyp.SexpString(nil), val.SexpString(nil))
 			case *SexpSentinel:
 				return nil // okay
 			default:
